@@ -5,3 +5,4 @@ import RSVerif.Properties.C01
 #print axioms RS.decode_low_restores
 #print axioms RS.roundtrip
 #print axioms RS.flat_decoders_are_lane_decoders
+#print axioms RS.source_decoders_are_model_decoders
